@@ -536,7 +536,14 @@ def merge_case(tdir, d, k, b):
         args = opts + names + [out]              # the kent call: bigWigMerge [options] in1.bw in2.bw .. out
     else:
         args = opts + ["-inList", listfile, out]
-    rc, _, err = run_tool(tdir, "mixedcase" if ucsc else "own", "bigwigmerge", args)
+    # every fortieth merge (those that write a bigWig): all hook events, for trace validation of the write pipeline fed by the merge tool's
+    # own data source (ChromGroupRead)
+    trf = os.path.join(d, "trm_%s.txt" % tag) if (k % 40 == 0 and outkind in ("bw", "bigWig", "type-bigwig")) else None
+    rc, _, err = run_tool(tdir, "mixedcase" if ucsc else "own", "bigwigmerge", args, trace=trf)
+    events = None
+    if trf:
+        events = []
+        path_events(trf, events)
     produced = 1 if os.path.exists(out) and os.path.getsize(out) > 0 else 0
     # "bases absent where the thresholded sum is absent": an input set whose merged result is empty legitimately gives an empty bedGraph
     is_bw = outkind in ("bw", "bigWig", "type-bigwig")
@@ -567,7 +574,7 @@ def merge_case(tdir, d, k, b):
             os.remove(p)
         except OSError:
             pass
-    return dict(b, mode="tool", argv=[a for a in args if a != out], obs={"rc": rc, "produced": produced, "parsed": parsed, "out": recs, "err": err[-300:]})
+    return dict(b, mode="tool", events=events if rc == 0 else None, argv=[a for a in args if a != out], obs={"rc": rc, "produced": produced, "parsed": parsed, "out": recs, "err": err[-300:]})
 
 
 def merge_tool_part(run):
@@ -584,10 +591,14 @@ def merge_tool_part(run):
     d = os.path.join(run.wd, "mfiles")
     os.makedirs(d, exist_ok=True)
     obs = run_parallel(lambda kb: merge_case(tdir, d, kb[0], kb[1]), list(enumerate(beh)))
+    traced = [({"source": "bigwigmerge", "ds": o["ds"], "style": o.get("style"), "out": o["out"]}, o["events"]) for o in obs if o.get("events")]
+    if traced:
+        from checks.c11 import validate_pipeline_traces
+        validate_pipeline_traces(run, traced, label="merge_tool_pipeline_trace_validation", min_lanes=4, min_multi=0)
     lines = []
     for o in obs:
-        lines.append(json.dumps({k: o[k] for k in o if k != "argv"}, separators=(",", ":")))
-        run.count_case(json.dumps({k: o[k] for k in o if k not in ("obs", "inputs", "argv")}, sort_keys=True), True)
+        lines.append(json.dumps({k: o[k] for k in o if k not in ("argv", "events")}, separators=(",", ":")))
+        run.count_case(json.dumps({k: o[k] for k in o if k not in ("obs", "inputs", "argv", "events")}, sort_keys=True), True)
     bad = validate_obs("Obs_Merge", "Obs.cfg", lines, run.wd, "tool", shards=4)
     run.cov["traces_validated_against_impl"] += len(obs)
     tags = {}
@@ -596,7 +607,7 @@ def merge_tool_part(run):
         o = obs[i]
         opts = [a for a in o["argv"] if a != "-b" and not a.endswith(".bw")]
         run.violation("C15 merge tool %s: ds=%s style=%s inputs x %s options=%s -> %s" % (tag, o["ds"], o.get("style"), o.get("mult"), opts, json.dumps(o["obs"])[:300]),
-                      {"kind": "cli15", "tag": tag, "case": {k: o[k] for k in o if k not in ("obs", "argv")}, "options": opts, "obs": o["obs"]})
+                      {"kind": "cli15", "tag": tag, "case": {k: o[k] for k in o if k not in ("obs", "argv", "events")}, "options": opts, "obs": o["obs"]})
     if tags:
         log("[C15] merge tool failing observations by tag: %s" % tags)
     run.sample({k: obs[0][k] for k in ("ds", "argv", "obs")})
